@@ -824,47 +824,51 @@ def find_in_ast(search, node):
     if not search or hasattr(node, "_location") and node._location == search:
         return node
 
-    child_node, cursor, current_search = node, node.body, deepcopy(search)
-    while len(current_search):
-        query = current_search.pop(0)
-        if (
-            len(current_search) == 0
-            and hasattr(child_node, "name")
-            and child_node.name == query
-        ):
-            return child_node
+    search = list(search)
+    if not isinstance(node, Module) and getattr(node, "name", None) == search[0]:
+        # The given node is itself the first element of the hierarchy
+        search.pop(0)
 
-        for child_node in cursor:
-            if hasattr(child_node, "_location") and child_node._location == search:
-                return child_node
-
-            elif isinstance(child_node, FunctionDef):
-                if len(current_search):
-                    query = current_search.pop(0)
-                _cursor = next(
+    cursor = node
+    for query in search:
+        if isinstance(cursor, FunctionDef):
+            idx_arg = next(
+                filter(
+                    lambda _idx_arg: _idx_arg[1].arg == query,
+                    enumerate(cursor.args.args),
+                ),
+                None,
+            )
+            if idx_arg is None:
+                cursor = next(
                     filter(
-                        lambda idx_arg: idx_arg[1].arg == query,
-                        enumerate(child_node.args.args),
+                        lambda _arg: _arg is not None and _arg.arg == query,
+                        cursor.args.kwonlyargs + [cursor.args.kwarg],
                     ),
                     None,
                 )
-                if _cursor is not None:
-                    if len(child_node.args.defaults) > _cursor[0]:
-                        setattr(
-                            _cursor[1], "default", child_node.args.defaults[_cursor[0]]
-                        )
-                    cursor = _cursor[1]
-                    if len(current_search) == 0:
-                        return cursor
-            elif (
-                isinstance(child_node, AnnAssign)
-                and isinstance(child_node.target, Name)
-                and child_node.target.id == query
-            ):
-                return child_node
-            elif hasattr(child_node, "name") and child_node.name == query:
-                cursor = child_node.body
-                break
+            else:
+                if len(cursor.args.defaults) > idx_arg[0]:
+                    setattr(idx_arg[1], "default", cursor.args.defaults[idx_arg[0]])
+                cursor = idx_arg[1]
+        else:
+            cursor = next(
+                filter(
+                    lambda child: getattr(child, "name", None) == query
+                    and not isinstance(child, alias)
+                    or isinstance(child, AnnAssign)
+                    and isinstance(child.target, Name)
+                    and child.target.id == query
+                    or isinstance(child, Assign)
+                    and all(map(rpartial(isinstance, Name), child.targets))
+                    and any(target.id == query for target in child.targets),
+                    getattr(cursor, "body", ()),
+                ),
+                None,
+            )
+        if cursor is None:
+            return None
+    return cursor
 
 
 def annotate_ancestry(node):
